@@ -416,11 +416,43 @@ def State.removeAnnIfPresent (s : State) (h : Nat) : Option State :=
 def State.removeAll (s : State) (hs : List Nat) : Option State :=
   hs.foldl (fun acc h => acc.bind (fun st => st.removeAnnIfPresent h)) (some s)
 
+/-- `str::parse::<usize>()`: an optional `+`, then one or more ASCII digits, below 2^64 -/
+def parseUsize (cs : List Char) : Option Nat :=
+  let ds := match cs with
+    | '+' :: rest => rest
+    | _ => cs
+  if ds.isEmpty || !ds.all (fun c => '0' ≤ c && c ≤ '9') then none
+  else
+    let v := ds.foldl (fun acc c => acc * 10 + (c.toNat - '0'.toNat)) 0
+    if v < 2 ^ 64 then some v else none
+
+/-- `resolve_temp_id` guarded by the type letter: `!<L><n>` -/
+def tempId (letter : Char) (id : String) : Option Nat :=
+  match id.toList with
+  | '!' :: l :: rest => if l = letter then parseUsize rest else none
+  | _ => none
+
+/-- looking an annotation up by a public (or temporary) identifier through the API -/
+def State.lookupAnn (s : State) (id : String) : Option Nat :=
+  match tempId 'A' id with
+  | some n => if (getLive s.anns n).isSome then some n else none
+  | none => s.resolveAnn (.id id)
+
+def State.lookupRes (s : State) (id : String) : Option Nat :=
+  match tempId 'R' id with
+  | some n => if (getLive s.res n).isSome then some n else none
+  | none => s.resolveRes id
+
+def State.lookupSet (s : State) (id : String) : Option Nat :=
+  match tempId 'S' id with
+  | some n => if (getLive s.sets n).isSome then some n else none
+  | none => s.resolveSet id
+
 def dedupSorted (l : List Nat) : List Nat := (l.mergeSort (· ≤ ·)).eraseDups
 
 /-- `Request::to_handle`: an id is resolved through the id map, a handle is taken as is -/
 def State.annHandleOf (s : State) : Ref → Option Nat
-  | .id i => s.resolveAnn (.id i)
+  | .id i => s.lookupAnn i
   | .h n => some n
 
 def State.rmAnn (s : State) (r : Ref) : Resp × State :=
@@ -430,7 +462,7 @@ def State.rmAnn (s : State) (r : Ref) : Resp × State :=
 
 /-- `remove_resource` -/
 def State.rmRes (s : State) (id : String) : Resp × State :=
-  match s.resolveRes id with
+  match s.lookupRes id with
   | none => (.err, s)
   | some rh =>
     let metas := s.lookup (.resMeta rh)
@@ -449,7 +481,7 @@ def State.rmRes (s : State) (id : String) : Resp × State :=
 
 /-- `remove_dataset` -/
 def State.rmSet (s : State) (id : String) : Resp × State :=
-  match s.resolveSet id with
+  match s.lookupSet id with
   | none => (.err, s)
   | some sh =>
     let users : List Nat := (List.range s.anns.length).filter (fun h =>
@@ -557,38 +589,6 @@ end Stam
 namespace Stam
 
 /-! ### public identifiers (C03) -/
-
-/-- `str::parse::<usize>()`: an optional `+`, then one or more ASCII digits, below 2^64 -/
-def parseUsize (cs : List Char) : Option Nat :=
-  let ds := match cs with
-    | '+' :: rest => rest
-    | _ => cs
-  if ds.isEmpty || !ds.all (fun c => '0' ≤ c && c ≤ '9') then none
-  else
-    let v := ds.foldl (fun acc c => acc * 10 + (c.toNat - '0'.toNat)) 0
-    if v < 2 ^ 64 then some v else none
-
-/-- `resolve_temp_id` guarded by the type letter: `!<L><n>` -/
-def tempId (letter : Char) (id : String) : Option Nat :=
-  match id.toList with
-  | '!' :: l :: rest => if l = letter then parseUsize rest else none
-  | _ => none
-
-/-- looking an annotation up by a public (or temporary) identifier through the API -/
-def State.lookupAnn (s : State) (id : String) : Option Nat :=
-  match tempId 'A' id with
-  | some n => if (getLive s.anns n).isSome then some n else none
-  | none => s.resolveAnn (.id id)
-
-def State.lookupRes (s : State) (id : String) : Option Nat :=
-  match tempId 'R' id with
-  | some n => if (getLive s.res n).isSome then some n else none
-  | none => s.resolveRes id
-
-def State.lookupSet (s : State) (id : String) : Option Nat :=
-  match tempId 'S' id with
-  | some n => if (getLive s.sets n).isSome then some n else none
-  | none => s.resolveSet id
 
 /-- `strip_annotation_ids` -/
 def State.stripAnn (s : State) : State :=
